@@ -368,8 +368,9 @@ class Walker:
         self.tokens[t] = info
         return mk_name(t)
 
-    def expand(self, val, depth=8):
-        """Replace call-result tokens in val by the call expressions."""
+    def expand(self, val, depth=8, literals=False):
+        """Replace call-result tokens in val by the call expressions (with literals=True also the tokens of
+        list / set literals by the literal with its propagated elements)."""
         if depth == 0 or not isinstance(val, ast.AST):
             return val
         w = self
@@ -378,7 +379,14 @@ class Walker:
             def visit_Name(self, n):
                 info = w.tokens.get(n.id)
                 if info is not None and info[0] == 'call':
-                    return w.expand(copy.deepcopy(info[1]), depth - 1)
+                    return w.expand(copy.deepcopy(info[1]), depth - 1, literals)
+                if literals and info is not None and info[0] == 'new' and len(info) > 3 and isinstance(info[3].val, ast.Call):
+                    return w.expand(copy.deepcopy(info[3].val), depth - 1, literals)
+                if literals and info is not None and info[0] == 'fresh' and info[1] in ('list', 'set'):
+                    elts = [w.expand(copy.deepcopy(x), depth - 1, literals) for x in info[3]]
+                    if info[1] == 'list':
+                        return ast.List(elts=elts, ctx=ast.Load())
+                    return ast.Set(elts=elts) if elts else n
                 return n
         return X().visit(copy.deepcopy(val))
 
